@@ -23,6 +23,7 @@
 
 #include <string>
 #include <vector>
+#include <atomic>
 
 namespace bloc
 {
@@ -34,7 +35,8 @@ class Complex
 {
   Type _type;
   void * _instance = nullptr;
-  int * _refcount = nullptr;
+  /* shared by the copies held by clones running on several threads */
+  std::atomic<int> * _refcount = nullptr;
 
   Complex(Type::TypeMinor type_id, void * handle);
 
